@@ -1,0 +1,123 @@
+// MIT License
+//
+// Copyright (c) 2022-2026 GoAkt Team
+//
+// Permission is hereby granted, free of charge, to any person obtaining a copy
+// of this software and associated documentation files (the "Software"), to deal
+// in the Software without restriction, including without limitation the rights
+// to use, copy, modify, merge, publish, distribute, sublicense, and/or sell
+// copies of the Software, and to permit persons to whom the Software is
+// furnished to do so, subject to the following conditions:
+//
+// The above copyright notice and this permission notice shall be included in all
+// copies or substantial portions of the Software.
+//
+// THE SOFTWARE IS PROVIDED "AS IS", WITHOUT WARRANTY OF ANY KIND, EXPRESS OR
+// IMPLIED, INCLUDING BUT NOT LIMITED TO THE WARRANTIES OF MERCHANTABILITY,
+// FITNESS FOR A PARTICULAR PURPOSE AND NONINFRINGEMENT. IN NO EVENT SHALL THE
+// AUTHORS OR COPYRIGHT HOLDERS BE LIABLE FOR ANY CLAIM, DAMAGES OR OTHER
+// LIABILITY, WHETHER IN AN ACTION OF CONTRACT, TORT OR OTHERWISE, ARISING FROM,
+// OUT OF OR IN CONNECTION WITH THE SOFTWARE OR THE USE OR OTHER DEALINGS IN THE
+// SOFTWARE.
+
+//go:build verif
+
+package actor
+
+import (
+	"sort"
+
+	"github.com/tochemey/goakt/v4/internal/verifhook"
+)
+
+// verifOrder lets a verification harness fix the order of a tree snapshot
+// (watchers / watchees / children), which otherwise follows Go's randomized map
+// iteration. Decision 0 (no harness, or nothing scripted) keeps the natural
+// order; 1 sorts by actor name ascending; 2 sorts descending. Every order is
+// one the unmodified code can produce.
+func verifOrder(x *tree, list []*PID) {
+	switch verifhook.Fault("tree.order", x, int64(len(list))) {
+	case 1:
+		sort.Slice(list, func(i, j int) bool { return list[i].Name() < list[j].Name() })
+	case 2:
+		sort.Slice(list, func(i, j int) bool { return list[i].Name() > list[j].Name() })
+	}
+}
+
+// VerifNode is a read-only projection of one node of the actor tree.
+type VerifNode struct {
+	ID       string
+	Name     string
+	PID      *PID
+	Parent   string   // name of the parent node ("" for the root)
+	Children []string // names, sorted
+	Watchers []string // names, sorted
+	Watchees []string // names, sorted
+}
+
+// VerifTreeOf returns the actor tree of sys (the object passed to the tree.*
+// verifhook points). Verification harness only.
+func VerifTreeOf(sys ActorSystem) any { return sys.tree() }
+
+// VerifSpawnGroupOf returns the object passed to the spawn.* verifhook points.
+func VerifSpawnGroupOf(sys ActorSystem) any { return &sys.(*actorSystem).spawnActivation }
+
+// VerifDeathWatchOf returns the death-watch system actor.
+func VerifDeathWatchOf(sys ActorSystem) *PID { return sys.getDeathWatch() }
+
+// VerifUserGuardianOf returns the user guardian.
+func VerifUserGuardianOf(sys ActorSystem) *PID { return sys.getUserGuardian() }
+
+// VerifStateOf projects the lifecycle flags of pid.
+func VerifStateOf(pid *PID) (running, stopping, suspended bool) {
+	return pid.isStateSet(runningState), pid.isStateSet(stoppingState), pid.isStateSet(suspendedState)
+}
+
+// VerifDumpTree projects the tree t (as returned by VerifTreeOf). With
+// locked=true the caller already holds the tree lock (it is inside a tree.mut
+// hook); otherwise the read lock is taken here. Nodes are sorted by name.
+func VerifDumpTree(t any, locked bool) []VerifNode {
+	x := t.(*tree)
+	if !locked {
+		x.mu.RLock()
+		defer x.mu.RUnlock()
+	}
+	keys := func(m map[string]*PID) []string {
+		out := make([]string, 0, len(m))
+		for _, p := range m {
+			out = append(out, p.Name())
+		}
+		sort.Strings(out)
+		return out
+	}
+	res := make([]VerifNode, 0, len(x.pids))
+	for id, n := range x.pids {
+		v := VerifNode{ID: id, Name: n.name, PID: n.pid.Load(), Watchers: keys(n.watchers), Watchees: keys(n.watchees)}
+		if n.parentNode != nil {
+			v.Parent = n.parentNode.name
+		}
+		v.Children = make([]string, 0, len(n.descendants))
+		for _, c := range n.descendants {
+			v.Children = append(v.Children, c.name)
+		}
+		sort.Strings(v.Children)
+		res = append(res, v)
+	}
+	sort.Slice(res, func(i, j int) bool { return res[i].Name < res[j].Name })
+	return res
+}
+
+// VerifNamesIndex returns the names index of the tree (name -> id), to compare
+// with the ids index returned by VerifDumpTree.
+func VerifNamesIndex(t any, locked bool) map[string]string {
+	x := t.(*tree)
+	if !locked {
+		x.mu.RLock()
+		defer x.mu.RUnlock()
+	}
+	out := make(map[string]string, len(x.names))
+	for name, n := range x.names {
+		out[name] = n.id
+	}
+	return out
+}
